@@ -794,6 +794,9 @@ fn stream_case(c: &mut Case) -> Result<Vec<u64>, BadCase> {
         .is_ok()
     });
     if !fin {
+        if std::env::var_os("C14_DEBUG").is_some() {
+            eprintln!("hang; events so far: {:?}", log.ev.borrow());
+        }
         return Ok(vec![2, 8]);
     }
     summary(&d1);
